@@ -31,7 +31,7 @@ instance : Monad Res where
     | .err => .err
     | .panic => .panic
 
-/-- A heap reference: the identity of one Go `map[uint8]string`. -/
+/-- A heap reference (the identity of one Go `map[uint8]string`) is a natural number. -/
 abbrev Ref := Nat
 
 /-- Contents of one Go map, as an association list in which the first entry of a
@@ -49,23 +49,23 @@ end AMap
 
 /-- The heap of maps: `next` is the next fresh reference. -/
 structure Heap where
-  next : Ref
-  cells : Ref → AMap
+  next : Nat
+  cells : Nat → AMap
 
 namespace Heap
 def empty : Heap := ⟨0, fun _ => []⟩
 /-- `make(map[uint8]string)` filled with `m`. -/
-def alloc (h : Heap) (m : AMap) : Heap × Ref :=
+def alloc (h : Heap) (m : AMap) : Heap × Nat :=
   (⟨h.next + 1, fun r => if r = h.next then m else h.cells r⟩, h.next)
 /-- in-place update of the map `r`. -/
-def write (h : Heap) (r : Ref) (m : AMap) : Heap :=
+def write (h : Heap) (r : Nat) (m : AMap) : Heap :=
   ⟨h.next, fun r' => if r' = r then m else h.cells r'⟩
 end Heap
 
 /-- `attr.Set` (set.go:31-43). `ref = none` is the nil map. -/
 structure Set where
   mask : Nat := 0
-  ref : Option Ref := none
+  ref : Option Nat := none
   bits : Nat := 0
 deriving DecidableEq, Repr, Inhabited
 
@@ -82,7 +82,7 @@ def Set.attrs (h : Heap) (s : Set) : AMap :=
 def setAttr (h : Heap) (s : Set) (key : Nat) (value : Bytes) : Res (Heap × Set) :=
   if key ≥ C19AttrKeys.setAttrKeyLimit then .panic   -- panic("key too large")
   else
-    let hr : Heap × Ref := match s.ref with
+    let hr : Heap × Nat := match s.ref with
       | some r => (h, r)
       | none => h.alloc []                            -- s.attrs = make(map[uint8]string)
     let h1 := hr.1
